@@ -231,6 +231,28 @@ Theorem C05_returned_psd_shift : forall (F : OF) (n : nat) (frz : vec -> vec), f
 Proof. exact returned_psd_shift. Qed.
 Print Assumptions C05_returned_psd_shift.
 
+(* ---- threshold -> variational inequality (a statement that CAN be proved without convergence theory): at the sweep with
+   error_value e = br s_k (step k s_k) <= eps, every z in A /\ B has  <x0 - x', z - x'>  negative or, squared, at most |p'|^2 * eps.
+   |p'| is a number of the run itself (recorded in the history); no a-priori bound on it is claimed. *)
+Theorem C05_stopped_variational_eps : forall (F : OF) (n : nat) (frz : vec -> vec), frz_ok F n frz ->
+  forall (PA PB : nat -> vec -> vec) (A B : vec -> Prop) (eps : F), obtuse F n A PA -> obtuse F n B PB ->
+  forall (x0 : vec) (k : nat) (z : vec), A z -> B z ->
+  let s := iter F frz PA PB k (init F frz x0) in
+  let s' := step F frz PA PB k s in
+  let c := dot n (vsub x0 (sx s')) (vsub z (sx s')) in
+  kle F (br F n s s') eps -> kle F (c0 F) c -> kle F (cmul F c c) (cmul F (dot n (sp s') (sp s')) eps).
+Proof. exact stopped_variational_eps. Qed.
+Print Assumptions C05_stopped_variational_eps.
+
+(* ---- the executed op c05.run runs the model with the fuel capped at (recorded sweeps + 1); an answer that used at most the
+   recorded number of sweeps IS the answer with the full fuel max_iteration (so far only a comment in Exec/C05_ops.v) *)
+Theorem C05_exec_run_fuel_cap : forall (F : OF) (n : nat) (frz : vec -> vec) (Peq Pineq : nat -> vec -> vec) (eq_first : bool)
+    (eps : F) (max_iter K : nat) (x0 : vec) (r : runres F),
+  run_mode F n frz Peq Pineq eq_first eps (Nat.min max_iter (S K)) x0 = Some r -> (r_steps r <= K)%nat ->
+  run_mode F n frz Peq Pineq eq_first eps max_iter x0 = Some r.
+Proof. intros F n frz Peq Pineq eq_first. exact (run_fuel_cap F n frz (first_proj F Peq Pineq eq_first) (second_proj F Peq Pineq eq_first)). Qed.
+Print Assumptions C05_exec_run_fuel_cap.
+
 (* ---- already-physical input: every iterate is the input, p = q = 0; the loop stops after exactly two sweeps with
    error_value = [None, 0] *)
 Theorem C05_fixed_point : forall (F : OF) (n : nat) (frz : vec -> vec), frz_ok F n frz ->
